@@ -4,7 +4,8 @@
    (The other theorems transfer the same way; these are the ones spelled out.) *)
 From FB Require Import Sem.Base Sem.Lemmas Model.Fb Model.Deframers Model.Adapters Spec.Api Spec.Frames Spec.StdAdapters
   Facets.Fb Facets.Fb2 Facets.DfContract Facets.Rf Facets.RfRefine Facets.Frames Facets.C02 Facets.Adapters.
-From FB Require Gen.FbGen Gen.AdaptersGen GenEq.Fb_read_frame GenEq.Fb_read_bytes GenEq.Ad_chain_read GenEq.Ad_take_read.
+From FB Require Gen.FbGen Gen.AdaptersGen Gen.DeframersGen GenEq.Fb_read_frame GenEq.Fb_read_bytes GenEq.Ad_chain_read GenEq.Ad_take_read
+  GenEq.Df_deframe_line GenEq.Df_deframe_crlf GenEq.Df_deframe_null.
 Open Scope Z_scope.
 
 Lemma loop_fuel_ext {S R} (b1 b2 : M S (option R)) : (forall w, b1 w = b2 w) ->
@@ -28,6 +29,35 @@ Proof.
   intros SIZE chk R df HR Hdf s st fuel HI Hf. rewrite read_frame_source_eq. exact (Facets.C02.c02_call SIZE chk R df HR Hdf s st fuel HI Hf).
 Qed.
 
+(* the three deframers that are in the tree now honour the documented contract, so the statement above applies to
+   read_frame(reader, deframe_line) etc. exactly as they are written today *)
+Lemma df_contract_ext L df1 df2 : (forall d, df1 d = df2 d) -> df_contract L df1 -> df_contract L df2.
+Proof.
+  intros He [B St Np]. split.
+  - intros d a b n Hl Hd. rewrite <- He in Hd. exact (B d a b n Hl Hd).
+  - intros d e Hl Hn. rewrite <- !He in *. exact (St d e Hl Hn).
+  - intros d Hl. rewrite <- He. exact (Np d Hl).
+Qed.
+Theorem c02_provided_source : forall chk SIZE, SIZE <= usize_max ->
+  df_contract SIZE (df_of (DeframersGen.deframe_line chk)) /\ df_contract SIZE (df_of (DeframersGen.deframe_crlf chk)) /\
+  df_contract SIZE (df_of (DeframersGen.deframe_null chk)).
+Proof.
+  intros chk SIZE Hs. destruct (provided_contracts chk SIZE Hs) as (H1 & H2 & H3).
+  split; [|split].
+  - apply (df_contract_ext SIZE (df_line chk)); [|exact H1]. intros d. unfold df_line, df_of. first [reflexivity | rewrite (GenEq.Df_deframe_line.gen_eq chk d tt); reflexivity].
+  - apply (df_contract_ext SIZE (df_crlf chk)); [|exact H2]. intros d. unfold df_crlf, df_of. first [reflexivity | rewrite (GenEq.Df_deframe_crlf.gen_eq chk d tt); reflexivity].
+  - apply (df_contract_ext SIZE (df_null chk)); [|exact H3]. intros d. unfold df_null, df_of. first [reflexivity | rewrite (GenEq.Df_deframe_null.gen_eq chk d tt); reflexivity].
+Qed.
+Theorem c02_line_source : forall SIZE chk (R : Reader stream_reader), implements R stream_ar -> SIZE <= usize_max ->
+  forall s st fuel, Inv2 SIZE s -> zlen (sr_rest st) < Z.of_nat fuel ->
+  let df := df_of (DeframersGen.deframe_line chk) in
+  exists r s' st' o, FbGen.read_frame chk R fuel df (s, st) = Val r (s', st') /\ out_of r = Some o /\
+    (o, unread s' ++ sr_rest st') = next SIZE df (unread s ++ sr_rest st) /\ Inv2 SIZE s'.
+Proof.
+  intros SIZE chk R HR Hs s st fuel HI Hf df.
+  exact (c02_call_source SIZE chk R df HR (proj1 (c02_provided_source chk SIZE Hs)) s st fuel HI Hf).
+Qed.
+
 (* C04: the read_bytes that is in the tree now panics exactly when asked for more than len(), leaving the buffer as it was *)
 Theorem c04_read_bytes_source : forall SIZE chk s n, Inv SIZE s -> 0 <= n <= usize_max -> len_ s < n ->
   FbGen.read_bytes chk n s = Panic s.
@@ -46,4 +76,4 @@ Print Assumptions c02_call_source.
 Print Assumptions c08_sim_source.
 
 (* the engine audits every GenEq module under this name *)
-Definition gen_eq := (c02_call_source, c04_read_bytes_source, c08_sim_source, c09_sim_source).
+Definition gen_eq := (c02_call_source, c02_provided_source, c02_line_source, c04_read_bytes_source, c08_sim_source, c09_sim_source).
